@@ -41,6 +41,8 @@ struct verif_in {
 	int repair_ret;
 	unsigned char computed[LEV_MAX * BS], ondisk[LEV_MAX * BS];
 	unsigned cnt_error, cnt_unrec;
+	/* parity offer region */
+	int po_present[LEV_MAX], po_read_ret[LEV_MAX], po_stale[LEV_MAX], po_auditonly;
 };
 VERIF_DECLARE_IN
 
@@ -447,5 +449,79 @@ void h_check_block_is_enabled(void)
 	VERIF_ASSERT((r != 0) == want, "a stripe is visited iff: -e on blocks: it is marked bad; otherwise some parity level is selected (every stripe of a plain check / fix), or it is bad, or it holds a block of a selected file");
 	VERIF_CANARY();
 }
+
+/*
+ * The parity offered to the repair of ONE stripe (state_check_process, region "now read and check the parity if requested" up
+ * to "try all the recovering strategies"): for every configured level whose parity file is open the block of THIS stripe is
+ * read into the level's own buffer, and the level is offered to repair exactly when that read succeeded - whatever happened
+ * to the same level on an earlier stripe (the pointers handed in are the ones an earlier stripe may have left: zero after a
+ * read error or a mismatch there).  A failed read is counted.  The zero buffer is the last one.
+ */
+static unsigned g_po_calls[LEV_MAX];
+static void *g_po_buf[LEV_MAX];
+static block_off_t g_po_pos[LEV_MAX];
+static int po_parity_read(struct snapraid_parity_handle *h, block_off_t pos, unsigned char *buf, unsigned block_size, fptr *out)
+{
+	unsigned l;
+	(void)out;
+	VERIF_ASSERT(block_size == BS, "a whole block is read");
+	for (l = 0; l < LEV_MAX; ++l)
+		if (h == PAR[l]) {
+			++g_po_calls[l];
+			g_po_buf[l] = buf;
+			g_po_pos[l] = pos;
+			return IN.po_read_ret[l] ? -1 : 0;
+		}
+	VERIF_ASSERT(0, "a parity handle of the array");
+	return -1;
+}
+#define parity_read po_parity_read
+#define lev_config_name w_lev
+#include "region_parity_offer.c"
+#undef parity_read
+#undef lev_config_name
+
+void h_parity_offer(void)
+{
+	static struct snapraid_state ST;
+	struct snapraid_parity_handle *parity[LEV_MAX];
+	void *buffer[2 + 2 * LEV_MAX + 1];
+	void *stale[LEV_MAX], *out_recov[LEV_MAX], *out_zero = 0;
+	unsigned l, error, nfail = 0, diskmax = 2, buffermax;
+	VERIF_INPUTS();
+	VERIF_ASSUME(IN.level >= 1 && IN.level <= LEV_MAX && IN.cnt_error < 100000 && !IN.po_auditonly);
+	ST.level = IN.level;
+	ST.block_size = BS;
+	ST.opt.auditonly = 0;
+	buffermax = diskmax + 2 * IN.level + 1;
+	/* distinct addresses: one byte of a private array per buffer slot */
+	{
+		static unsigned char slot[2 + 2 * LEV_MAX + 1];
+		for (l = 0; l < 2 + 2 * LEV_MAX + 1; ++l)
+			buffer[l] = &slot[l];
+	}
+	for (l = 0; l < LEV_MAX; ++l) {
+		parity[l] = (l < IN.level && IN.po_present[l]) ? PAR[l] : 0;
+		/* what an earlier stripe may have left for this level */
+		stale[l] = (l < IN.level && !IN.po_stale[l]) ? buffer[diskmax + IN.level + l] : (void *)0;
+		out_recov[l] = (void *)1;
+		g_po_calls[l] = 0;
+		if (l < IN.level && IN.po_present[l] && IN.po_read_ret[l])
+			++nfail;
+	}
+	error = IN.cnt_error;
+	region_parity_offer(&ST, parity, 7, diskmax, buffermax, buffer, stale, out_recov, &out_zero, &error);
+	for (l = 0; l < LEV_MAX; ++l) {
+		int open = l < IN.level && IN.po_present[l];
+		VERIF_ASSERT(g_po_calls[l] == (open ? 1u : 0u), "the parity block of the stripe is read once from every open level");
+		if (open)
+			VERIF_ASSERT(g_po_buf[l] == buffer[diskmax + IN.level + l] && g_po_pos[l] == 7, "it is read at the position of the stripe into the buffer of its level, whatever an earlier stripe left");
+		VERIF_ASSERT(out_recov[l] == ((open && !IN.po_read_ret[l]) ? buffer[diskmax + IN.level + l] : (void *)0), "a level is offered to repair exactly when its parity was read for THIS stripe");
+	}
+	VERIF_ASSERT(out_zero == buffer[buffermax - 1], "the zero buffer is the last one");
+	VERIF_ASSERT(error == IN.cnt_error + nfail, "every parity read error is counted");
+	VERIF_CANARY();
+}
+
 
 #include "verif_tail.h"
